@@ -281,6 +281,55 @@ def run(ctx):
   ctx.trace_ok(replayed)
   ctx.leg('R', metrics=sum(len(v[: (3 if big else 1)]) for v in chosen.values()), layouts_enumerated=total_layouts, replays=replayed)
 
+  # ---- without jit: the debug backend (per-client path, two clients and two calls on ONE evaluator) and jax.disable_jit()
+  # around evaluate_model on the same cached batch objects twice; the caller's batches must keep their mask
+  from fedjax.core import for_each_client as fec_mod  # pylint: disable=g-import-not-at-top
+  nd = 0
+  for g in pmap_groups[::2]:
+    metric = c14.make_metric(metrics, g['c0'], C)
+    model = models.Model(init=lambda rng_: None, apply_for_train=None, apply_for_eval=lambda params, batch: batch['pred'], train_loss=None,
+                         eval_metrics={'m': metric})
+    rows_g = [{k: np.array(v, np.int32 if k != 'pred' else np.float32) for k, v in r_.items()} for r_ in g['rows']]
+    clients_g = [(b'c%d' % i, build_batches(rows_g, lay, garbage_row=i, omit_full_mask=g['omit_full_mask'])) for i, lay in enumerate(g['layouts'])]
+    cfg = dict(metric=g['m'], args={k: v for k, v in g['c0'].items() if k in ('k', 'masked', 'banned', 'oov', 'eos')}, layouts=g['layouts'])
+
+    def expect_of(i):
+      a, w = np.array(g['expect'][i][0], np.float64), np.array(g['expect'][i][1], np.float64)
+      return a if g['kind'] == 'sum' else np.where(w == 0, 0., a / np.where(w == 0, 1, w))
+
+    def differs(got, exp):
+      gotf = np.asarray(got, np.float64).reshape(-1)
+      if gotf.size == 1 and exp.size > 1:
+        gotf = np.broadcast_to(gotf, exp.shape)
+      return gotf.shape != exp.shape or np.any(np.isnan(gotf)) or not np.allclose(gotf, exp, rtol=1e-6, atol=0)
+
+    try:
+      with fec_mod.for_each_client_backend('debug'):
+        ev_debug = models.ModelEvaluator(model)
+      for call in range(2):
+        res = dict(ev_debug.evaluate_global_params(jnp.zeros(()), clients_g))
+        nd += 1
+        for i in range(len(clients_g)):
+          if differs(res[b'c%d' % i]['m'], expect_of(i)):
+            ctx.violation(f'nojit:{g["m"]}:debug-backend', f'ModelEvaluator on the debug backend, call {call + 1}: client {i} gets {np.asarray(res[b"c%d" % i]["m"]).tolist()}, '
+                          f'its own statistics merge to {expect_of(i).tolist()}; {cfg}', replay={'cfg': cfg})
+            break
+      had_mask = [['__mask__' in b for b in bs_] for _, bs_ in clients_g]
+      with jax.disable_jit():
+        for call in range(2):
+          for i, (_, bs_) in enumerate(clients_g):
+            got = models.evaluate_model(model, None, bs_)['m']
+            nd += 1
+            if differs(got, expect_of(i)):
+              ctx.violation(f'nojit:{g["m"]}:evaluate_model', f'evaluate_model without jit, pass {call + 1} over the same batch objects: {np.asarray(got).tolist()} for layout '
+                            f'{g["layouts"][i]}, expected {expect_of(i).tolist()}; {cfg}', replay={'cfg': cfg})
+      if had_mask != [['__mask__' in b for b in bs_] for _, bs_ in clients_g]:
+        ctx.violation(f'nojit:{g["m"]}:batch-mutated', f'evaluation removed the mask from the caller\'s batches; {cfg}', replay={'cfg': cfg})
+    except Exception as ex:  # pylint: disable=broad-except
+      ctx.violation(f'nojit:{g["m"]}:exception', f'{type(ex).__name__}: {str(ex)[:200]} without jit; {cfg}', replay={'cfg': cfg})
+  ctx.trace_ok(nd)
+  ctx.leg('R', evaluations_without_jit=nd)
+
   # ---- the per-client evaluation path on several devices (pmap backend, 2 and 3 forced host devices, separate processes)
   import json  # pylint: disable=g-import-not-at-top
   import subprocess  # pylint: disable=g-import-not-at-top
